@@ -42,7 +42,19 @@ class C08(Property):
              (REC, "Record.clear_regions"), (REC, "Record.clear_subregions"),
              (REC, "Record.clear_candidate_clusters"), (REC, "Record.clear_protoclusters"),
              (REC, "Record.get_cds_features"), (REC, "Record.get_cds_by_name"),
-             (REC, "Record.get_cds_features_within_regions"),
+             (REC, "Record.get_cds_features_within_regions"), (REC, "Record.add_feature"),
+             (FEAT + "cdscollection.py", "CDSCollection.__init__"),
+             (FEAT + "cdscollection.py", "CDSCollection.__contains__"),
+             (FEAT + "cdscollection.py", "_CDSCache.__contains__"),
+             (FEAT + "cdscollection.py", "_SectionedCDSTuple.index"),
+             (FEAT + "cdscollection.py", "_SectionedCDSTuple._lookup"),
+             (FEAT + "protocluster.py", "Protocluster.__init__"),
+             (FEAT + "protocluster.py", "SideloadedProtocluster.__init__"),
+             (FEAT + "protocluster.py", "SideloadedProtocluster.definition_cdses"),
+             (FEAT + "subregion.py", "SideloadedSubRegion.__init__"),
+             (FEAT + "subregion.py", "SubRegion.__init__"),
+             (FEAT + "candidate_cluster/structures.py", "CandidateCluster.__init__"),
+             (FEAT + "region/structures.py", "Region.__init__"),
              (FEAT + "cdscollection.py", "_CDSCache.features"),
              (FEAT + "cdscollection.py", "_CDSCache._regen_cache"),
              (FEAT + "cdscollection.py", "_SectionedCDSCache._regen_cache"),
@@ -288,16 +300,19 @@ class C08(Property):
         n = rng.choice([12, 20, 30, 40, 60, 100, 1000])
         circular = rng.random() < 0.55
         anchors = [rng.randrange(0, n + 1) for _ in range(rng.choice([2, 3, 4]))] + [0, n]
-        products = ["pa", "pb"]
+        # product names of which one contains another (as antiSMASH's real rule names do), next to unrelated ones
+        products = rng.choice([["NRPS", "NRPS-like"], ["terpene", "terpene-precursor"], ["T1PKS", "PKS", "transAT-PKS"],
+                               ["a", "ab", "b"], ["pa", "pb"], ["RiPP-like", "RiPP"]])
         protos = []
         for i in range(rng.choice([0, 1, 1, 2, 2, 3])):
             loc = self.rand_area_loc(rng, n, circular, anchors)
             core = self.core_inside(rng, loc, n)
-            protos.append({"id": 100 + i, "kind": "proto", "loc": loc, "core": core,
-                           "product": rng.choice(products)})
+            protos.append({"id": 100 + i, "kind": "sideproto" if rng.random() < 0.2 else "proto", "loc": loc,
+                           "core": core, "product": rng.choice(products)})
         subs = []
         for i in range(rng.choice([0, 0, 1, 1, 2])):
-            subs.append({"id": 200 + i, "kind": "sub", "loc": self.rand_area_loc(rng, n, circular, anchors)})
+            subs.append({"id": 200 + i, "kind": "sub", "loc": self.rand_area_loc(rng, n, circular, anchors),
+                         "sideloaded": rng.random() < 0.2})
         if not protos and not subs:
             subs.append({"id": 200, "kind": "sub", "loc": self.rand_area_loc(rng, n, circular, anchors)})
         cands = []
@@ -315,7 +330,7 @@ class C08(Property):
             if loc_key(loc) in seen:
                 continue
             seen.add(loc_key(loc))
-            cores = [p for p in products if rng.random() < 0.45]
+            cores = [p for p in products if rng.random() < 0.4]
             genes.append({"id": len(genes), "loc": loc, "cores": cores})
         genes = genes[:rng.choice([2, 3, 4, 5, 6, 8])]
         with_regions = rng.random() < 0.8
@@ -353,6 +368,15 @@ class C08(Property):
             r = rng.random()
             if r < 0.2:
                 out.append(["peek_cds"])
+            elif r < 0.3 and all_ids and gene_ids:
+                out.append(["has", rng.choice(all_ids), rng.choice(gene_ids)])
+            elif r < 0.4 and all_ids and gene_ids:
+                aid, gid_ = rng.choice(all_ids), rng.choice(gene_ids)
+                out.append(["has", aid, gid_])
+                if rng.random() < 0.97:
+                    out.append(["index_if", aid, gid_])       # resolved below: asked only when listed (else IndexError)
+                else:
+                    out.append(["index", aid, gid_])
             elif r < 0.55 and all_ids:
                 out.append(["peek", rng.choice(all_ids)])
             elif r < 0.75:
@@ -474,6 +498,8 @@ class C08(Property):
     def execute(self, case: Dict[str, Any], ops: List[List[Any]]) -> Dict[str, Any]:
         """runs one ordering on fresh objects; returns observations and the regions created"""
         from antismash.common.secmet.features import CandidateCluster, Protocluster, SubRegion
+        from antismash.common.secmet.features.protocluster import SideloadedProtocluster
+        from antismash.common.secmet.features.subregion import SideloadedSubRegion
         from antismash.common.secmet.features.candidate_cluster import CandidateClusterKind
         from antismash.common.secmet.test.helpers import DummyRecord
         n, circular = case["len"], case["circ"]
@@ -482,13 +508,20 @@ class C08(Property):
         descr: Dict[int, Dict[str, Any]] = {}
         try:
             for p in case["protos"]:
-                objs[p["id"]] = Protocluster(common.make_location(p["core"]), common.make_location(p["loc"]),
-                                             tool="t", product=p["product"], cutoff=0, neighbourhood_range=0,
-                                             detection_rule="r")
+                if p["kind"] == "sideproto":
+                    objs[p["id"]] = SideloadedProtocluster(common.make_location(p["core"]), common.make_location(p["loc"]),
+                                                           "t", p["product"])
+                else:
+                    objs[p["id"]] = Protocluster(common.make_location(p["core"]), common.make_location(p["loc"]),
+                                                 tool="t", product=p["product"], cutoff=0, neighbourhood_range=0,
+                                                 detection_rule="r")
                 descr[p["id"]] = dict(p, kids=[])
             for s in case["subs"]:
-                objs[s["id"]] = SubRegion(common.make_location(s["loc"]), tool="t", label="l")
-                descr[s["id"]] = dict(s, kids=[])
+                if s.get("sideloaded"):
+                    objs[s["id"]] = SideloadedSubRegion(common.make_location(s["loc"]), "t", label="l")
+                else:
+                    objs[s["id"]] = SubRegion(common.make_location(s["loc"]), tool="t", label="l")
+                descr[s["id"]] = {"id": s["id"], "kind": "sub", "loc": s["loc"], "kids": []}
             for c in case["cands"]:
                 objs[c["id"]] = CandidateCluster(CandidateClusterKind.NEIGHBOURING, [objs[k] for k in c["kids"]],
                                                  circular_wrap_point=n if circular else None)
@@ -527,19 +560,24 @@ class C08(Property):
             # the order add_region was called in (the record keeps its own order)
             return out
 
+        made = {i: self.make_cds(g) for i, g in genes.items()}     # the objects exist before they are added
         for step, op in enumerate(ops):
             try:
                 kind = op[0]
+                generic = (step + len(ops)) % 2 == 0       # half of the additions go through Record.add_feature
                 if kind == "cds":
-                    cds = self.make_cds(genes[op[1]])
+                    cds = made[op[1]]
                     model_ops.append(["cds", genes[op[1]]])
-                    rec.add_cds_feature(cds)
+                    (rec.add_feature if generic else rec.add_cds_feature)(cds)
                     cdses[op[1]] = cds
                 elif kind == "area":
                     obj = objs[op[1]]
                     model_ops.append(["area", descr[op[1]]])
-                    {"proto": rec.add_protocluster, "sub": rec.add_subregion,
-                     "cand": rec.add_candidate_cluster}[descr[op[1]]["kind"]](obj)
+                    if generic:
+                        rec.add_feature(obj)
+                    else:
+                        {"proto": rec.add_protocluster, "sideproto": rec.add_protocluster, "sub": rec.add_subregion,
+                         "cand": rec.add_candidate_cluster}[descr[op[1]]["kind"]](obj)
                 elif kind == "regions":
                     known = {id(r) for r in rec.get_regions()}
                     try:
@@ -578,6 +616,16 @@ class C08(Property):
                     model_ops.append(["name", op[1]])
                     cds = rec.get_cds_by_name(f"g{op[1]}")
                     log.append([[gid(cds), int(cds.location.start), int(cds.location.end)]])
+                elif kind == "has":
+                    model_ops.append(["has", op[1], op[2]])
+                    log.append([[1 if made[op[2]] in objs[op[1]] else 0]])
+                elif kind == "index":
+                    model_ops.append(["index", op[1], op[2]])
+                    log.append([[int(objs[op[1]].cds_children.index(made[op[2]]))]])
+                elif kind == "index_if":
+                    if made[op[2]] in objs[op[1]]:
+                        model_ops.append(["index", op[1], op[2]])
+                        log.append([[int(objs[op[1]].cds_children.index(made[op[2]]))]])
                 elif kind == "within_regions":
                     model_ops.append(["within_regions"])
                     log.append([sorted(gid(c) for c in rec.get_cds_features_within_regions())])
@@ -709,7 +757,7 @@ class C08(Property):
             bad = [i for i, ok in enumerate(drv.get("log_ok", [])) if not ok]
             if bad or len(drv.get("log_ok", [])) != len(first["log"]):
                 spec_ok = False
-                peeks = [o for o in first["model_ops"] if o[0] in ("peek_cds", "peek", "name", "within_regions")]
+                peeks = [o for o in first["model_ops"] if o[0] in ("peek_cds", "peek", "name", "within_regions", "has", "index")]
                 details.append(f"observation {bad[:1]} fails its spec: call {peeks[bad[0]] if bad else '?'} returned "
                                f"{first['log'][bad[0]] if bad else first['log']}")
             if first["log"]:
